@@ -215,6 +215,17 @@ func sameAccessPath(a, b ssa.Value, d int) bool {
 	case *ssa.UnOp:
 		y, ok := b.(*ssa.UnOp)
 		return ok && x.Op == token.MUL && y.Op == token.MUL && sameAccessPath(x.X, y.X, d+1)
+	case *ssa.IndexAddr:
+		y, ok := b.(*ssa.IndexAddr)
+		return ok && sameAccessPath(x.X, y.X, d+1) && sameAccessPath(x.Index, y.Index, d+1)
+	case *ssa.Const:
+		y, ok := b.(*ssa.Const)
+		if !ok {
+			return false
+		}
+		cx, ok1 := constIntVal(x)
+		cy, ok2 := constIntVal(y)
+		return ok1 && ok2 && cx == cy
 	}
 	return false
 }
